@@ -53,6 +53,9 @@ def gen_case(seed: int, prop: str, tier: str) -> dict:
         case["name"] = rng.choice(["test.vmcx", "test.VMRS"])
     else:
         case["doc"] = rng.choice(["vmx", "vmx_enc", "ovf", "vbox", "pvs", "hdd_desc"])
+    # a quarter of the handle-based workloads hand the library a real io.BytesIO instead of a simulated handle: code that
+    # special-cases in-memory buffers (getbuffer(), in-place transforms) must not alter the caller's bytes either
+    case["bytesio"] = kind in ("disk", "envelope", "hyperv", "vmtar", "fixture") and rng.random() < 0.3
     nf = rng.choice([0, 0, 1, 1, 2, 3])
     for _ in range(nf):
         f = rng.choice(["eio", "eio", "eio", "enoent", "eacces", "trunc", "flip", "flip"])
@@ -89,6 +92,34 @@ def _apply_faults(world: World, case) -> None:
             if off < sf.length:
                 sf.add_flip(off, "xor", f[3])
                 world.faults_fired["bitflip"] += 1
+
+
+class _BioBook:
+    """Real io.BytesIO handles given to the library, with a snapshot of their content."""
+
+    def __init__(self):
+        self.items = []
+
+    def make(self, world, path, limit=8 << 20):
+        f = world.fs.files[path]
+        if f.visible_length() > limit:
+            return world.handle(path)
+        data = f.pread(0, f.visible_length(), 1 << 62)
+        bio = io.BytesIO(data)
+        bio.name = path
+        self.items.append((path, bio, data))
+        return bio
+
+    def changed(self):
+        out = []
+        for path, bio, data in self.items:
+            try:
+                now = bio.getvalue()
+            except Exception:
+                continue
+            if now != data:
+                out.append(path)
+        return out
 
 
 def _guard(fn, world, log, what):
@@ -135,6 +166,8 @@ def run_case(case: dict) -> RunResult:
     sig = {"kind": kind}
     sites = set()
     world.fs.site_log = sites
+    book = _BioBook()
+    H = (lambda p: book.make(world, p)) if case.get("bytesio") else (lambda p: world.handle(p))
     d = world.root + "/ev"
     with world.fs:
         # ---- build the world (harness side, not monitored) ------------------------------------------
@@ -145,7 +178,15 @@ def run_case(case: dict) -> RunResult:
             F, layers, view, img, main = disk.build(sub, world)
 
             def w_disk():
-                s = F.open(world, main, img, sub["open"])
+                if case.get("bytesio"):
+                    real_handle = world.handle
+                    world.handle = lambda p, named=True: book.make(world, p)
+                    try:
+                        s = F.open(world, main, img, sub["open"])
+                    finally:
+                        world.handle = real_handle
+                else:
+                    s = F.open(world, main, img, sub["open"])
                 for op in sub["cops"]:
                     if op[0] == "r":
                         s.seek(op[1])
@@ -216,7 +257,7 @@ def run_case(case: dict) -> RunResult:
                 from dissect.hypervisor.util import vmtar
 
                 if case["how"] == "fileobj":
-                    t = vmtar.open(fileobj=world.handle(d + "/test.vgz"))
+                    t = vmtar.open(fileobj=H(d + "/test.vgz"))
                 elif case["how"] == "name":
                     t = vmtar.open(d + "/test.vgz")
                 else:
@@ -258,7 +299,7 @@ def run_case(case: dict) -> RunResult:
                     from dissect.hypervisor.util.envelope import Envelope, KeyStore
 
                     ks = KeyStore.from_text(Path(d + "/encryption.info").read_text())
-                    ev = Envelope(world.handle(d + "/local.tgz.ve"))
+                    ev = Envelope(H(d + "/local.tgz.ve"))
                     ev.decrypt(ks.key, aad=b"ESXConfiguration" if case["aad"] else None)
 
                 work.append(("envelope", w_env))
@@ -268,7 +309,7 @@ def run_case(case: dict) -> RunResult:
             def w_hv():
                 from dissect.hypervisor.descriptor.hyperv import HyperVFile
 
-                hf = HyperVFile(world.handle(d + "/" + case["name"]))
+                hf = HyperVFile(H(d + "/" + case["name"]))
                 hf.as_dict()
 
             work.append(("hyperv", w_hv))
@@ -329,6 +370,9 @@ def run_case(case: dict) -> RunResult:
     gone = [p for p in before if p not in after]
     if muts:
         viol = Violation(prop, "mutation:" + muts[0][0], log.seq, f"{len(muts)} mutating event(s): {muts[:3]}", dict(sig, klass="mutation:" + muts[0][0]))
+    elif book.changed():
+        viol = Violation(prop, "caller-buffer-changed", log.seq, f"the content of caller-supplied in-memory handle(s) changed: {book.changed()[:3]}",
+                         dict(sig, klass="caller-buffer-changed"))
     elif changed or created or gone:
         viol = Violation(prop, "evidence-changed", log.seq, f"changed={changed[:3]} created={created[:3]} removed={gone[:3]}", dict(sig, klass="evidence-changed"))
     elif net:
@@ -342,6 +386,8 @@ def run_case(case: dict) -> RunResult:
     if fk:
         res.nontrivial_keys.add(key)
     res.probes["monitor.kind_" + kind] = 1
+    if book.items:
+        res.probes["monitor.bytesio_handle"] = 1
     res.faults.update(world.faults_fired)
     for s in sites:
         res.probes["site:" + s] = 1
